@@ -56,6 +56,15 @@ pub fn find_prev_line_break_pos(
     }
 }
 
+/// Returns true if only blanks lie between the beginning of the line and `byte_pos`.
+pub fn is_line_head(bytes: &[u8], byte_pos: usize) -> bool {
+    bytes[..byte_pos.min(bytes.len())]
+        .iter()
+        .rev()
+        .take_while(|b| **b != b'\n')
+        .all(|b| *b == b' ' || *b == b'\t')
+}
+
 #[derive(Debug)]
 enum CheckResult {
     Skip,
